@@ -2,7 +2,10 @@ package sim
 
 import (
 	"math/rand"
+	"sort"
 )
+
+func sortSteps(s []Step) { sort.SliceStable(s, func(i, j int) bool { return s[i].At < s[j].At }) }
 
 // Step is one timed nemesis action.
 type Step struct {
@@ -154,6 +157,25 @@ func Generate(family string, seed int64, idx int) Scenario {
 	switch family {
 	default: // "random"
 		sc.Steps, sc.EndMs = randomSteps(r, sc.P, 10+r.Intn(25), false)
+	case "shutdown":
+		// C17: Shutdown() racing with every kind of client call, then calls on
+		// instances that have been shut down
+		sc.ShutdownPhase = true
+		sc.WBarrier, sc.WVerify, sc.WGetConfig, sc.WAnyNode = 10, 10, 5, 40
+		sc.P.BatchApply = r.Intn(2) == 0
+		steps, end := randomSteps(r, sc.P, 6+r.Intn(10), true)
+		t := sc.P.HeartbeatMs * 3
+		for i := 0; i < 2+r.Intn(4); i++ {
+			t += sc.P.HeartbeatMs/2 + r.Intn(4*sc.P.HeartbeatMs)
+			n := r.Intn(sc.P.N())
+			steps = append(steps, Step{At: t, Act: "burst", N: []int{1 + r.Intn(6)}}, Step{At: t, Act: "transfer", N: []int{-1}}, Step{At: t + r.Intn(3), Act: "shutdown", N: []int{n}},
+				Step{At: t + sc.P.HeartbeatMs*(1+r.Intn(4)), Act: "restart", N: []int{n}})
+		}
+		sortSteps(steps)
+		if t+2*sc.P.HeartbeatMs > end {
+			end = t + 2*sc.P.HeartbeatMs
+		}
+		sc.Steps, sc.EndMs = steps, end+4*sc.P.HeartbeatMs
 	case "churn":
 		if sc.P.Spares == 0 {
 			sc.P.Spares = 1
